@@ -155,8 +155,9 @@ def render(srcdir):
     tables, sets, skipped, hashes = translate(srcdir)
     o = ["(* GENERATED by gen/switchtables.py from the C sources; do not edit.  Regenerated on every check",
          "   (gen/lib.py: regen_switchtables) from the tree that is being checked.  Data only.",
-         "   Sources (sha256 of the file contents):"]
-    o += ["     src/%s %s" % (f, hashes[f]) for f in sorted(hashes)]
+         "   Sources: " + ", ".join("src/" + f for f in sorted(hashes)) + ".",
+         "   (No content hash here on purpose: the file must change exactly when a table changes, so that a tree whose",
+         "   switches are the same does not force a rebuild of the proofs that rest on this file.)"]
     o += ["   %d switch statements on characters; switches on other values, not translated:" % len(tables)]
     o += ["     " + s for s in skipped] + ["*)",
           "From Coq Require Import List NArith String.", "Import ListNotations.", "Local Open Scope N_scope.", "Local Open Scope string_scope.", ""]
